@@ -222,6 +222,59 @@ Proof.
   unfold E, get_end_reason. rewrite info_visit_lit. exact E2.
 Qed.
 
+(* simulation without the own-key equation (for a loop head, whose reason is not used) *)
+Definition sim0 (K : list N) (m : st -> st) (g : st -> gres) : Prop :=
+  forall x, fresh x K -> m x = g_st (g x) /\ frame x (g_st (g x)) K.
+
+Lemma sim_sim0 K p m g : sim K p m g -> sim0 K m g.
+Proof. intros H x Hf. destruct (H x Hf) as [E1 [_ F]]. split; assumption. Qed.
+
+(* a closure that records nothing under the statement's own key p *)
+Lemma sim0_own K p m g : sim0 K m g -> (forall x, g_rs (g x) = None) -> ~ In p K -> sim (p :: K) p m g.
+Proof.
+  intros H Hr Hp x Hf. assert (Hf' : fresh x K) by (eapply fresh_incl; [exact Hf | apply incl_tl, incl_refl]).
+  destruct (H x Hf') as [E1 F]. dsplit; [exact E1 | | eapply frame_weak; [exact F | apply incl_tl, incl_refl]].
+  rewrite Hr, (E_frame _ _ _ p F Hp). apply Hf. left. reflexivity.
+Qed.
+
+Lemma sim_equiv K K' p m g : sim K p m g -> (forall k, In k K <-> In k K') -> sim K' p m g.
+Proof.
+  intros H Hi x Hf. assert (Hf' : fresh x K) by (intros k Hk; apply Hf, Hi; exact Hk).
+  destruct (H x Hf') as [E1 [E2 F]]. dsplit; [exact E1 | exact E2|]. intros k Hk. apply F. intros Hk'. apply Hk, Hi. exact Hk'.
+Qed.
+
+Lemma sim0_fn_expr fp pb m g K :
+  sim_l K m g -> ~ In fp (pb :: K) -> sim0 (fp :: pb :: K) (visit_fn_expr fx fp pb m) (fn_exprG fx fp pb g).
+Proof.
+  intros H Hp x Hf. destruct (sim_arrow fp pb m g K H Hp x Hf) as [E1 [_ F]]. unfold visit_fn_expr, fn_exprG.
+  destruct (fn_likeG fx fp pb g x) as [[y r] lg]. cbn [g_st fst snd] in *. split; assumption.
+Qed.
+
+Lemma rs_fn_expr fp pb g x : g_rs (fn_exprG fx fp pb g x) = None.
+Proof. unfold fn_exprG. destruct (fn_likeG fx fp pb g x) as [[y r] lg]. reflexivity. Qed.
+
+Lemma sim0_for_head fp pb m g K :
+  sim_l K m g -> ~ In fp (pb :: K) -> sim0 (fp :: pb :: K) (visit_for_head fx fp pb m) (for_headG fx fp pb g).
+Proof.
+  intros H Hp. unfold visit_for_head, for_headG. destruct (fixE fx); [apply sim0_fn_expr; assumption|].
+  intros x _. cbn [g_st fst]. split; [reflexivity | apply frame_refl].
+Qed.
+
+(* the head of a loop, then the loop (whose own key is p) *)
+Lemma sim_seq m1 g1 m2 g2 K1 K2 p :
+  sim0 K1 m1 g1 -> sim K2 p m2 g2 -> (forall k, In k K2 -> ~ In k K1) ->
+  sim (K1 ++ K2) p (fun x => m2 (m1 x)) (seqG g1 g2).
+Proof.
+  intros H1 H2 Hd x Hf. unfold seqG.
+  destruct (H1 x (fresh_incl _ _ _ Hf (incl_appl _ (incl_refl _)))) as [E1 F1]. rewrite E1.
+  destruct (g1 x) as [[y r1] lg1]. cbn [g_st fst snd] in *.
+  assert (Hf2 : fresh y K2).
+  { eapply fresh_frame; [|exact F1 | exact Hd]. eapply fresh_incl; [exact Hf | apply incl_appr, incl_refl]. }
+  destruct (H2 y Hf2) as [E2 [E3 F2]]. rewrite E2. destruct (g2 y) as [[z r] lg2]. cbn [g_st g_rs fst snd] in *.
+  dsplit; [reflexivity | exact E3|].
+  eapply frame_trans; eapply frame_weak; [exact F1 | apply incl_appl, incl_refl | exact F2 | apply incl_appr, incl_refl].
+Qed.
+
 Lemma sim_return p a K : In p K ->
   sim K p (visit_return p a) (fun x => let '(y, r) := visit_returnG p a x in (y, r, [])).
 Proof.
@@ -664,6 +717,10 @@ Proof.
     wrap_case (SArrowStmt p pb b) (fun x => visit_lit (visit_fn_like fx p pb (an_list fx b) x))
       (fun x => let '(y, r, lg) := fn_likeG fx p pb (anG_list fx b) x in (visit_lit y, r, lg))
       (sim_arrow p pb _ _ _ (IHb Hnb) Hp).
+  - intros p gp pb b IHb Hn. cbn [keys] in Hn. destruct (NoDup_cons_inv _ _ Hn) as [Hp Hn']. destruct (NoDup_cons_inv _ _ Hn') as [Hgp Hn''].
+    destruct (NoDup_cons_inv _ _ Hn'') as [Hpb Hnb].
+    wrap_case (SGetterStmt p gp pb b) (visit_fn_expr fx gp pb (an_list fx b)) (fn_exprG fx gp pb (anG_list fx b))
+      (sim0_own _ p _ _ (sim0_fn_expr gp pb _ _ _ (IHb Hnb) Hgp) (rs_fn_expr gp pb (anG_list fx b)) Hp).
   - intros p a Hn. wrap_case (SRet p a) (visit_return p a) (fun x => let '(y, r) := visit_returnG p a x in (y, r, @nil gent))
       (sim_return p a [p] (or_introl eq_refl)).
   - intros p e Hn. wrap_case (SThrow p e) (visit_throw fx p e) (fun x => let '(y, r) := visit_throwG fx p e x in (y, r, @nil gent))
@@ -700,6 +757,23 @@ Proof.
   - intros p b IHb Hn. cbn [keys] in Hn. destruct (NoDup_cons_inv _ _ Hn) as [Hp Hnb].
     wrap_case (SForOf p b) (visit_for_in fx (pos b) (an fx b)) (visit_for_inG fx (pos b) (anG fx b))
       (sim_for_in p (pos b) _ _ _ (IHb Hnb) (pos_in_keys b) Hp).
+  - intros p g fp pb hb IHh b IHb Hn. cbn [keys] in Hn. destruct (NoDup_cons_inv _ _ Hn) as [Hp Hn'].
+    destruct (NoDup_app_inv _ _ Hn') as [Hnh [Hnb Hd]].
+    destruct (NoDup_cons_inv _ _ Hnh) as [Hfp Hnh']. destruct (NoDup_cons_inv _ _ Hnh') as [Hpb Hnhb].
+    assert (Hpb' : ~ In p (keys b)) by (intros Hk; apply Hp; apply in_or_app; right; exact Hk).
+    assert (Hdis : forall k, In k (p :: keys b) -> ~ In k (fp :: pb :: keys_l hb)).
+    { intros k [<- | Hk] Hk'; [apply Hp; apply in_or_app; left; exact Hk' | exact (Hd k Hk' Hk)]. }
+    assert (Heq : forall k, In k ((fp :: pb :: keys_l hb) ++ p :: keys b) <-> In k (p :: (fp :: pb :: keys_l hb) ++ keys b)).
+    { intros k. split; intros H.
+      - apply in_app_or in H. destruct H as [H | [H | H]]; [right; apply in_or_app; left; exact H | left; exact H | right; apply in_or_app; right; exact H].
+      - destruct H as [H | H]; [apply in_or_app; right; left; exact H|].
+        apply in_app_or in H. apply in_or_app. destruct H as [H | H]; [left; exact H | right; right; exact H]. }
+    wrap_case (SForHead p g fp pb hb b) (fun x => visit_for_in fx (pos b) (an fx b) (visit_for_head fx fp pb (an_list fx hb) x))
+      (seqG (for_headG fx fp pb (anG_list fx hb)) (visit_for_inG fx (pos b) (anG fx b)))
+      (sim_equiv _ (p :: (fp :: pb :: keys_l hb) ++ keys b) _ _ _
+         (sim_seq _ _ _ _ (fp :: pb :: keys_l hb) (p :: keys b) p
+            (sim0_for_head fp pb _ _ _ (IHh Hnhb) Hfp)
+            (sim_for_in p (pos b) _ _ _ (IHb Hnb) (pos_in_keys b) Hpb') Hdis) Heq).
   - intros p cs IHc Hn. cbn [keys] in Hn. destruct (NoDup_cons_inv _ _ Hn) as [Hp Hnc].
     wrap_case (SSwitch p cs) (visit_switch p cs (an_cases fx cs)) (visit_switchG p cs (anG_cases fx cs))
       (sim_switch p cs _ _ _ (IHc Hnc) Hp).
@@ -849,6 +923,21 @@ Proof.
   rewrite U_visit_lit. exact H'.
 Qed.
 
+Lemma ulog_fn_expr fp pb g : ulog_l g -> ulog (fn_exprG fx fp pb g).
+Proof.
+  intros H x k. unfold fn_exprG. pose proof (ulog_fn fp pb g H x k) as H'. destruct (fn_likeG fx fp pb g x) as [[y r] lg]. cbn [g_st g_lg fst snd] in *.
+  rewrite U_visit_lit. exact H'.
+Qed.
+Lemma ulog_for_head fp pb g : ulog_l g -> ulog (for_headG fx fp pb g).
+Proof. intros H. unfold for_headG. destruct (fixE fx); [apply ulog_fn_expr; exact H | intros x k Hu; left; exact Hu]. Qed.
+Lemma ulog_seq g1 g2 : ulog g1 -> ulog g2 -> ulog (seqG g1 g2).
+Proof.
+  intros H1 H2 x k. unfold seqG. specialize (H1 x k). destruct (g1 x) as [[y r1] lg1]. cbn [g_st g_lg fst snd] in *.
+  specialize (H2 y k). destruct (g2 y) as [[z r] lg2]. cbn [g_st g_lg fst snd] in *. intros Hu.
+  destruct (H2 Hu) as [H2' | Hl]; [|right; apply logged_app_r; exact Hl].
+  destruct (H1 H2') as [H1' | Hl]; [left; exact H1' | right; apply logged_app_l; exact Hl].
+Qed.
+
 Lemma ulog_if p c p1 g1 : ulog g1 -> ulog (visit_ifG fx p c p1 g1).
 Proof.
   intros H x k. unfold visit_ifG. pose proof (ulog_with_child KIf p1 g1 H (visit_cond c x) k) as H'.
@@ -979,6 +1068,7 @@ Proof.
   - intros p n pb b IHb. apply (ulog_wrap (SFnDecl p n pb b) (fn_likeG fx p pb (anG_list fx b))). apply ulog_fn. exact IHb.
   - intros p pb b IHb. apply (ulog_wrap (SArrowStmt p pb b) (fun x => let '(y, r, lg) := fn_likeG fx p pb (anG_list fx b) x in (visit_lit y, r, lg))).
     apply ulog_arrow. exact IHb.
+  - intros p gp pb b IHb. apply (ulog_wrap (SGetterStmt p gp pb b) (fn_exprG fx gp pb (anG_list fx b))). apply ulog_fn_expr. exact IHb.
   - intros p a. apply (ulog_wrap (SRet p a) (fun x => let '(y, r) := visit_returnG p a x in (y, r, []))).
     intros x k. unfold visit_returnG. cbn [g_st g_lg fst snd]. rewrite U_mark. destruct a; [rewrite U_visit_e|]; intros H; left; exact H.
   - intros p e. apply (ulog_wrap (SThrow p e) (fun x => let '(y, r) := visit_throwG fx p e x in (y, r, []))).
@@ -995,6 +1085,9 @@ Proof.
   - intros p c b IHb. apply (ulog_wrap (SFor p c b) (visit_forG fx p c (pos b) (anG fx b))). apply ulog_for. exact IHb.
   - intros p b IHb. apply (ulog_wrap (SForIn p b) (visit_for_inG fx (pos b) (anG fx b))). apply ulog_for_in. exact IHb.
   - intros p b IHb. apply (ulog_wrap (SForOf p b) (visit_for_inG fx (pos b) (anG fx b))). apply ulog_for_in. exact IHb.
+  - intros p g fp pb hb IHh b IHb.
+    apply (ulog_wrap (SForHead p g fp pb hb b) (seqG (for_headG fx fp pb (anG_list fx hb)) (visit_for_inG fx (pos b) (anG fx b)))).
+    apply ulog_seq; [apply ulog_for_head; exact IHh | apply ulog_for_in; exact IHb].
   - intros p cs IHc. apply (ulog_wrap (SSwitch p cs) (visit_switchG p cs (anG_cases fx cs))). apply ulog_switch. exact IHc.
   - intros p l b IHb.
     apply (ulog_wrap (SLabel p l b) (fun x => let '(y, _, lg) := with_childG fx (KLabel l) p (fun a => orbG b (anG fx b a)) x in (y, None, lg))).
